@@ -118,7 +118,9 @@ func c06Filter(lg *c06Log, id, behaviour string) restful.FilterFunction {
 			req.SetAttribute("attr-"+id, id)
 			chain.ProcessFilter(req, resp)
 		case fCORS:
-			restful.CrossOriginResourceSharing{AllowedDomains: []string{corsE1}, AllowedMethods: []string{"GET", "POST", "OPTIONS"}, CookiesAllowed: true}.Filter(req, resp, chain)
+			// (a variable, so that the call compiles whichever receiver kind Filter has)
+			cors := restful.CrossOriginResourceSharing{AllowedDomains: []string{corsE1}, AllowedMethods: []string{"GET", "POST", "OPTIONS"}, CookiesAllowed: true}
+			cors.Filter(req, resp, chain)
 		default:
 			chain.ProcessFilter(req, resp)
 		}
